@@ -315,6 +315,24 @@ def run_all(chk, binary, streams):
         if name not in seen:
             seen.add(name)
             chk.sample(dict(stream=name, case=c[:300], model=m[:300], impl=i[:300]), limit=12)
+    # measured distribution: outcome per kind of call (from the model's results), input lengths, allocating calls
+    kinds, lens, allocs = {}, {}, 0
+    for c, m in zip(cases, model):
+        pm = parse_fields(m)
+        if pm is None:
+            continue
+        data, ops = case_parts(c)
+        b = "0" if not data else "1-3" if len(data) <= 3 else "4-8" if len(data) <= 8 else "9-64" if len(data) <= 64 else ">64"
+        lens[b] = lens.get(b, 0) + 1
+        for op, rd in zip(ops, parse_rds(pm["R"])):
+            typ = op[-1] if op[0] != "n" else "n"
+            key = typ + ":" + (rd[0] if rd[0].startswith("E:") or rd[0] == "PANIC" else "ok")
+            kinds[key] = kinds.get(key, 0) + 1
+            if rd[3] > 0:
+                allocs += 1
+    chk.cov["outcomes_per_call_kind"] = dict(sorted(kinds.items()))
+    chk.cov["input_length_histogram"] = lens
+    chk.cov["calls_with_model_alloc>0"] = allocs
     return cases, model, impl
 
 
@@ -379,7 +397,7 @@ def replay(chk, path):
     binary = pure.build_pure(chk)
     cases = [x["case"] for x in rep.get("failing_inputs", []) + rep.get("divergences", []) if isinstance(x.get("case"), str) and x["case"].startswith("c12 ")]
     impl = common.run_impl(binary, cases, env=ENV)
-    model = common.run_model(cases)
+    model = octets.run_model_parallel(cases, nproc=1)
     bad = 0
     for c, m, i in zip(cases, model, impl):
         mf = monitor(c, i)
